@@ -49,6 +49,12 @@ def swapC (c : Choice) (xa ya : VarOrLevel) (log : List SchedItem) : M ((Nat × 
   if hi - lo ≠ 1 then M.throw .value else
   swapBodyC c lo.toNat hi.toNat log
 
+/-- the public `swap(x, y)` (no dict given: a full collection first) -/
+def swapPublicC (c : Choice) (xa ya : VarOrLevel) (log : List SchedItem) :
+    M ((Nat × Nat) × List SchedItem) := do
+  collectGarbage none
+  swapC c xa ya log
+
 def shiftLoopC (c : Choice) : Nat → Int → Int → Int → List (Nat × Nat) → List SchedItem →
     M (List (Nat × Nat) × List SchedItem)
   | 0, i, e, _, sizes, log => if i = e then pure (sizes, log) else M.throw .fuel
